@@ -599,6 +599,29 @@ impl Check for C07 {
             check_text(ctx, &text, true)
         });
         let _ = tok_text;
+        // thorough tier: triage of the libFuzzer campaign (fuzz/run.sh front), spread over the shards
+        if t == crate::ctx::Tier::Thorough {
+            let inputs = crate::driver::fuzz_inputs("front", 40_000);
+            if ctx.shard == 0 {
+                ctx.note(format!("fuzz-triage: {} inputs from the libFuzzer campaign on the `front` target", inputs.len()));
+            }
+            for (i, (name, bytes)) in inputs.iter().enumerate() {
+                if (i as u32) % ctx.of != ctx.shard {
+                    continue;
+                }
+                let Ok(text) = std::str::from_utf8(bytes) else { continue };
+                if text.len() > 16 * 1024 {
+                    continue;
+                }
+                let o = check_text(ctx, text, false);
+                if name.starts_with("artifacts/") {
+                    ctx.class("libFuzzer artifact triaged");
+                } else {
+                    ctx.class("libFuzzer corpus input triaged");
+                }
+                ctx.handle("fuzz-triage", o);
+            }
+        }
     }
 
     fn replay(&self, ctx: &mut ShardCtx, _stage: &str, input: &J) -> Outcome {
